@@ -22,6 +22,8 @@ import (
 	"github.com/mgtv-tech/redis-GunYu/config"
 	pb "github.com/mgtv-tech/redis-GunYu/pkg/api/golang"
 	"github.com/mgtv-tech/redis-GunYu/pkg/cluster"
+	"github.com/mgtv-tech/redis-GunYu/pkg/redis/checkpoint"
+	"github.com/mgtv-tech/redis-GunYu/pkg/redis/client"
 	"github.com/mgtv-tech/redis-GunYu/syncer"
 
 	"verifh/fakeredis"
@@ -234,6 +236,44 @@ func runScenario(sc *scenario, tr *hx.Trace, work string, r *hx.Rng) {
 				time.Sleep(time.Duration(r.Intn(30)) * time.Millisecond)
 				sy.Resume()
 			}
+		case "fullsync":
+			// the operator forces a full resynchronisation (http api /syncer/fullsync without flushdb): pause, drop the cache of
+			// the current replication id, delete the stored positions of the source's ids, resume
+			a.mu.Lock()
+			sy := a.sy
+			a.mu.Unlock()
+			if sy != nil && sy.State() == syncer.SyncerStateRun {
+				paused := make(chan struct{})
+				go func() { sy.Pause(); close(paused) }()
+				select {
+				case <-paused:
+				case <-time.After(40 * time.Second):
+					hx.Fatal("scenario %d: Pause did not return", sc.id)
+				}
+				sy.DelRunId()
+				ids := map[string]bool{}
+				for _, id := range sy.RunIds() {
+					ids[id] = true
+				}
+				cli, err := client.NewRedis(a.cfg.Output)
+				if err != nil {
+					hx.Fatal("scenario %d: %v", sc.id, err)
+				}
+				data, err := checkpoint.GetAllCheckpointHash(cli)
+				if err != nil {
+					hx.Fatal("scenario %d: GetAllCheckpointHash: %v", sc.id, err)
+				}
+				for i := 0; i+1 < len(data); i += 2 {
+					if ids[data[i]] {
+						if err := checkpoint.DelCheckpoint(cli, data[i+1], data[i]); err != nil {
+							hx.Fatal("scenario %d: DelCheckpoint: %v", sc.id, err)
+						}
+					}
+				}
+				cli.Close()
+				emit(r.Intn(3))
+				sy.Resume()
+			}
 		case "losebacklog":
 			src.Mu.Lock()
 			src.Bl = src.M() + 2
@@ -408,7 +448,7 @@ func main() {
 	wd := hx.NewWatchdog(240 * time.Second)
 	nScen := 0
 	kinds := map[string]int{}
-	pool := []string{"drop", "failover", "losebacklog", "pause", "pause"}
+	pool := []string{"drop", "failover", "losebacklog", "pause", "pause", "fullsync"}
 	for s := 0; s < *n; s++ {
 		if s%*shards != *shard {
 			continue
